@@ -2,6 +2,7 @@ package main
 
 import (
 	"fmt"
+	"go/token"
 	"go/types"
 	"math"
 	"regexp"
@@ -76,6 +77,40 @@ func (x *Exec) sliceVals(s SliceV) []Value {
 
 func (x *Exec) native(name string, fn *ssa.Function, args []Value) (Value, bool) {
 	switch name {
+	case "errors.Is":
+		err, _ := args[0].(Iface)
+		target, _ := args[1].(Iface)
+		if target.t == nil {
+			return Bool(err.t == nil), true
+		}
+		for depth := 0; depth < 12 && err.t != nil; depth++ {
+			if eq := x.binop(token.EQL, err, target, nil).(*Term); eq.isC && eq.c == 1 {
+				return Bool(true), true
+			}
+			ms := x.prog.MethodSets.MethodSet(err.t)
+			if m := ms.Lookup(nil, "Is"); m != nil {
+				if sig, ok := m.Type().(*types.Signature); ok && sig.Params().Len() == 1 && sig.Results().Len() == 1 {
+					r := x.call(x.prog.MethodValue(m), []Value{err.v, target}, nil).(*Term)
+					if x.branch(r) {
+						return Bool(true), true
+					}
+				}
+			}
+			m := ms.Lookup(nil, "Unwrap")
+			if m == nil {
+				break
+			}
+			sig, ok := m.Type().(*types.Signature)
+			if !ok || sig.Params().Len() != 0 || sig.Results().Len() != 1 {
+				break
+			}
+			next, ok := x.call(x.prog.MethodValue(m), []Value{err.v}, nil).(Iface)
+			if !ok {
+				break // Unwrap() []error is not modelled
+			}
+			err = next
+		}
+		return Bool(false), true
 	case "strconv.ParseFloat":
 		if _, ok := args[0].(*Str).concrete(); !ok {
 			return x.symParseFloat(args[0].(*Str)), true
@@ -435,8 +470,10 @@ func (x *Exec) native(name string, fn *ssa.Function, args []Value) (Value, bool)
 	case "internal/bytealg.MakeNoZero":
 		n := int(args[0].(*Term).c)
 		a := &ArrayObj{e: make([]Obj, n)}
+		cells := make([]Cell, n)
 		for i := range a.e {
-			a.e[i] = &Cell{v: BV(0, 8)}
+			cells[i].v = zero8
+			a.e[i] = &cells[i]
 		}
 		return SliceV{a: a, len: n, cap: n}, true
 	case "internal/abi.NoEscape", "internal/bytealg.Cutover":
